@@ -62,7 +62,9 @@ pub fn same(a: Float, b: Float, inexact: bool) -> bool {
     if inexact {
         close(a, b)
     } else {
-        a == b
+        // NaN never compares equal to itself; the full-width obligations range over every bit
+        // pattern, where "both sides are NaN" is agreement
+        a == b || (a != a && b != b)
     }
 }
 
